@@ -111,6 +111,11 @@ def subclasscheck(t1, t2):
     if t1 == t2:
         return True
 
+    if isinstance(t1, UnionTypes) and t2 not in UnionTypes:
+        # A union written in a passed type (list[int | str]): it is a subtype
+        # of whatever all its members are subtypes of
+        return all(subclasscheck(m, t2) for m in get_args(t1))
+
     if (
         hasattr(t2, "__is_supertype__")
         and (result := t2.__is_supertype__(t1)) is not NotImplemented
